@@ -118,6 +118,8 @@ def search(chk, broken):
     n = 200 if (chk.tier == 'quick' and not broken) else 20000
     evals = 0
     for k in range(n):
+        if chk.over():
+            break
         z = rng.uniform(-1400, 36000) if k > 2 else [-1400.0, 0.0, 36000.0][k]
         T, p, rr, a = isa(z)
         at = pbc.Atmo.icao(U.Foot(z))
@@ -163,6 +165,8 @@ def search(chk, broken):
         if any(v.get_density_factor_and_mach_for_altitude(zz)[0] != 0 for zz in (0.0, z, z2, 1e5)):
             chk.failures.append(Failure('vacuum', 'vacuum density not zero', {'op': 'vacuum'}))
     for bad in (-0.001, 100.001, 1000):
+        if chk.over():
+            break
         evals += 1
         try:
             pbc.Atmo(humidity=bad)
